@@ -36,12 +36,13 @@ ALLOWED_AXIOMS = {
     "ProofIrrelevance.proof_irrelevance",
     "JMeq.JMeq_eq",
     # binary64 specification axioms of Coq.Floats.FloatAxioms (the kernel's primitive comparison / negation / abs
-    # are SFeqb / SFltb / SFleb / SFopp / SFabs on Prim2SF): used by coq/Common/Float64Order.v
+    # are SFeqb / SFltb / SFleb / SFopp / SFabs / SF64mul on Prim2SF): used by coq/Common/Float64Order.v
     "FloatAxioms.eqb_spec",
     "FloatAxioms.ltb_spec",
     "FloatAxioms.leb_spec",
     "FloatAxioms.opp_spec",
     "FloatAxioms.abs_spec",
+    "FloatAxioms.mul_spec",
 }
 FORBIDDEN = re.compile(
     r"\b(Admitted|admit|Axiom|Axioms|Parameter|Parameters|Conjecture|Conjectures|"
